@@ -224,10 +224,12 @@ def _run_enumerated(sub, ctx, tier, lib):
     budget = sub.budget_s_quick if tier == "quick" else sub.budget_s_thorough
     t_end = time.time() + budget
     complete = True
+    mine = 0
     for i, case in enumerate(sub.cases(tier)):
         if i % ctx.nshards != ctx.shard:
             continue
-        if (i & 0xFF) == 0 and time.time() > t_end:
+        mine += 1
+        if (mine & 0x3F) == 0 and time.time() > t_end:
             complete = False
             ctx.skipped_budget += 1
             break
